@@ -99,9 +99,17 @@ def replay_circuit(p):
         circ.single_qubit_gate(U1, p['a'])
         g = circ.measure(sub, seed=seed)
         circ.single_qubit_gate(U2, p['b'])
-        if circ.num_qubit != n:
+        hist = p.get('hist')
+        a_, b_ = p['a'], p['b']
+        if hist:
+            circ.apply_state(q)                      # earlier use of the same circuit object
+            if hist == 'shift':
+                circ.shift_qubit_index_(1)
+                a_, b_, sub = a_ + 1, b_ + 1, tuple(x + 1 for x in sub)
+        elif circ.num_qubit != n:
             return False, 'circuit does not touch the last qubit'
         out = circ.apply_state(q)
+        p = dict(p, a=a_, b=b_)
         mid = embed(U1, (p['a'],), n) @ q
         ref = np.asarray(born(mid, list(sub), n), dtype=float)
         if not H.close(g.probability, ref, TOL):
@@ -205,8 +213,11 @@ def run(chk):
                     outs = {p_.value['o'] for p_ in paths if p_.status == 'return'}
                     chk.add(f'every outcome reachable [n={n},index={subset}]', [], ir.bconst(outs == set(range(2 ** len(subset)))), key='measure_quantum_vector unreachable outcome', replay=rp)
     # ---- MeasureGate inside a circuit: symbolic gates before and after
-    for n, a, sub, b in ((2, 0, (1,), 1), (2, 1, (0, 1), 0)) if quick else ((2, 0, (1,), 1), (2, 1, (0, 1), 0), (3, 2, (0, 2), 1), (3, 0, (1,), 2)):
-        q = H.cx_array(f'cq{n}', 2 ** n)
+    cfgs = [(2, 0, (1,), 1, None), (2, 1, (0, 1), 0, None), (3, 0, (0,), 1, 'shift'), (2, 0, (1,), 1, 'rerun')]
+    if not quick:
+        cfgs += [(3, 2, (0, 2), 1, None), (3, 0, (1,), 2, None), (3, 1, (0, 1), 0, 'shift'), (3, 0, (0, 2), 1, 'rerun'), (4, 0, (0, 2), 1, 'shift')]
+    for n, a, sub, b, hist in cfgs:
+        q = H.cx_array(f'cq{n}{hist}', 2 ** n)
         # gate matrices and state fully symbolic (the identities below do not need unitarity or normalisation:
         # probabilities are then the unnormalised marginals, and out*sqrt(p_o) = U2 P_o U1 q)
         unit = c1 = c2 = ir.TRUE
@@ -215,22 +226,28 @@ def run(chk):
         stub = ChoiceRng(f'c{n}{a}{b}_')
         chk.configurations += 1
 
-        def f_c(stub=stub, n=n, a=a, sub=sub, b=b, U1=U1, U2=U2, q=q):
+        def f_c(stub=stub, n=n, a=a, sub=sub, b=b, U1=U1, U2=U2, q=q, hist=hist):
             stub.k = 0
             stub.outcomes = []
             circ = numqi.sim.Circuit()
             circ.single_qubit_gate(U1, a)
             g = circ.measure(sub, seed=stub)
             circ.single_qubit_gate(U2, b)
+            if hist:
+                circ.apply_state(q)                  # history: the same circuit object was used before ...
+                if hist == 'shift':
+                    circ.shift_qubit_index_(1)       # ... and moved to the next qubits (state of the same size)
             out = circ.apply_state(q)
-            return out, g.bitstr, g.probability, stub.outcomes[0]
+            return out, g.bitstr, g.probability, stub.outcomes[-1]
         try:
             paths, st = H.run_paths(f_c, [unit, c1, c2], extra_globals=extra, feas_timeout_ms=300)
         except S.EngineError as e:
             chk.engine_error(f'circuit measure n={n}', e)
             continue
         chk.add_path_stats(st)
-        rp = ('c11c', lambda m, q=q, U1=U1, U2=U2, n=n, a=a, b=b, sub=sub: H.payload_cx(m, {'q': q, 'U1': U1, 'U2': U2}, n=n, a=a, b=b, subset=list(sub)))
+        rp = ('c11c', lambda m, q=q, U1=U1, U2=U2, n=n, a=a, b=b, sub=sub, hist=hist: H.payload_cx(m, {'q': q, 'U1': U1, 'U2': U2}, n=n, a=a, b=b, subset=list(sub), hist=hist))
+        if hist == 'shift':                          # what the second run must do
+            a, b, sub = a + 1, b + 1, tuple(x + 1 for x in sub)
         for pi, path in enumerate(paths):
             pre = [unit, c1, c2] + path.pc + path.facts
             if path.status != 'return':
@@ -241,10 +258,10 @@ def run(chk):
             ref = born(mid, list(sub), n)
             cl = [H.eq_sc(x, y) for x, y in zip(A.plain(prob), ref)]
             cl.append(ir.bconst(list(bitstr) == [int(c) for c in bin(o)[2:].rjust(len(sub), '0')]))
-            chk.add(f'MeasureGate records Born marginals of the state at its position [n={n},a={a},index={sub},outcome={o}]', pre, ir.band_all(cl), key='MeasureGate probability/bitstr', replay=rp)
+            chk.add(f'MeasureGate records Born marginals of the state at its position [n={n},a={a},index={sub},outcome={o},history={hist}]', pre, ir.band_all(cl), key='MeasureGate probability/bitstr', replay=rp)
             with path.resume():
                 sp_ = S.as_sc(A.plain(prob)[o]).sqrt()
                 want = [S.as_sc(y) / sp_ for y in mv(embed(U2, (b,), n), project(mid, sub, o, n))]
             for j, (x, y) in enumerate(zip(A.plain(out), want)):
-                chk.add(f'circuit output == U2.P_o.U1.q / sqrt(p) [n={n},a={a},index={sub},outcome={o}] entry {j}', pre + path.facts, H.eq_sc(S.as_sc(x), y), key='Circuit measure state', replay=rp)
+                chk.add(f'circuit output == U2.P_o.U1.q / sqrt(p) [n={n},a={a},index={sub},outcome={o},history={hist}] entry {j}', pre + path.facts, H.eq_sc(S.as_sc(x), y), key='Circuit measure state', replay=rp)
     chk.solve(timeout_s=60 if quick else 300)
